@@ -14,3 +14,4 @@ import JivaVerif.Properties.C12
 import JivaVerif.Properties.C17
 import JivaVerif.Tie
 import JivaVerif.Properties.C15
+import JivaVerif.Properties.Rest
